@@ -444,28 +444,23 @@ func (s *State) diffIOSACLs(al, bl []*cmd, diff []edit.Range) {
 		s.Changes[top-1] = del + "\n" + add
 	}
 
-	// Check if insert position is between first and last line
-	// of a block of ACl lines.
-	// Returns action and blockID or empty action, if at border of block.
+	// Get action and blockID of lines in front of insert position.
+	// Remarks belong to the block in front of them,
+	// leading remarks belong to the first block.
+	// Returns empty action at top of ACL.
 	insideBlock := func(pos int) (string, int) {
-		var lowAct, highAct string
-		var id int
+		if pos == 0 {
+			return "", 0
+		}
 		for i := pos - 1; i >= 0; i-- {
 			if a := getIOSAction(al[i]); a != "remark" {
-				lowAct = a
-				id = idx2Block[i]
-				break
+				return a, idx2Block[pos-1]
 			}
 		}
 		for i := pos; i < len(al); i++ {
 			if a := getIOSAction(al[i]); a != "remark" {
-				highAct = a
-				id = idx2Block[i]
-				break
+				return a, idx2Block[pos-1]
 			}
-		}
-		if lowAct == highAct {
-			return lowAct, id
 		}
 		return "", 0
 	}
